@@ -9,13 +9,14 @@ _add_failure = add_failure
 
 PROP = "C04"
 # Props/C04Gen.lean: the definitions GENERATED from the current python source (Gen/C04Feature.lean) equal the hand model
-PROPS_FILES = ["CogentModel/Props/C04.lean", "CogentModel/Props/C04Gen.lean"]
-LEAN_TARGETS = ["CogentModel.Props.C04", "CogentModel.Props.C04Gen"]
+PROPS_FILES = ["CogentModel/Props/C04.lean", "CogentModel/Props/C04Gen.lean", "CogentModel/Props/C04GenSlice.lean"]
+LEAN_TARGETS = ["CogentModel.Props.C04", "CogentModel.Props.C04Gen", "CogentModel.Props.C04GenSlice"]
 DRIVER = "drv_c04"
 GEN_FILE = LEAN / "CogentModel" / "Gen" / "C04Feature.lean"
+GEN_SLICE_FILE = LEAN / "CogentModel" / "Gen" / "C04Slice.lean"
 
 
-def generate(ctx):
+def _generate_feature(ctx):
     """translator tie: re-translate Sequence.get_features / make_feature / parent_coordinates (old and new module) and
     location._spans_from_locations / from_locations / FeatureMap.nucleic_reversed from the CURRENT source of the checked
     tree (VERIF_REPO is honoured through harness.common.SRC) into Gen/C04Feature.lean; Props/C04Gen.lean then proves
@@ -37,8 +38,32 @@ def generate(ctx):
     return []
 
 
+def generate(ctx):
+    """both translators: c04_feature2lean (get_features / make_feature / add_feature / location helpers -> Gen/C04Feature.lean)
+    and c04_slice2lean (Feature.get_slice / _do_seq_slice, Sequence._mapped / gapped_by_map_segment_iter, old and new module
+    -> Gen/C04Slice.lean; Props/C04GenSlice.lean proves the generated definitions equal to Model/FeatureSeq.lean)"""
+    problems = list(_generate_feature(ctx))
+    from translator import c04_slice2lean as ts
+
+    lean, info, probs = ts.translate(SRC)
+    ctx.notes.append(f"c04_slice2lean: source tree {SRC}; statements translated {json.dumps(info)}")
+    if probs or lean is None:
+        ctx.notes.append("c04_slice2lean: translation problems -> Gen/C04Slice.lean left as it was (stale)")
+        return problems + [f"c04_slice2lean: {p}" for p in probs]
+    if ts.write_if_changed(GEN_SLICE_FILE, lean):
+        ctx.notes.append("Gen/C04Slice.lean was rewritten (python source differs from the last generated text)")
+    return problems
+
+
 TRUSTED = [
+    "translator/c04_slice2lean.py (python ast -> Lean for Feature.get_slice / _do_seq_slice and Sequence._mapped / "
+    "gapped_by_map_segment_iter, old and new module; conventions S1-S5 in its header) and its prelude "
+    "Model/FeatureSliceGenPrelude.lean (FeatureMap accessors complete / without_gaps / num_spans / start / end, C01's str(self[a:b]) "
+    "as strSlice, rc(), the two Sequence constructors incl. the new-style offset guard): Gen/C04Slice.lean is proved equal to the "
+    "hand model Model/FeatureSeq.lean (getSlice / getSliceContig / getSliceNew) for all sequences and maps (Props/C04GenSlice.lean); "
+    "Sequence.__getitem__'s dispatch of a map index to _mapped is not translated",
     "translator/c04_feature2lean.py (python ast -> Lean for get_features' window arithmetic and span conversion, make_feature, "
+    "add_feature (with the inlined annotation_offset property), "
     "parent_coordinates, _spans_from_locations, from_locations, FeatureMap.nucleic_reversed; conventions B1-B5 in its header) "
     "and its prelude Model/FeatureGenPrelude.lean (numpy/list primitives): the output Gen/C04Feature.lean is proved equal to the "
     "hand model for all arguments (Props/C04Gen.lean, re-checked against freshly generated text every run); the hand model is "
@@ -61,11 +86,18 @@ ASSUMPTIONS = [
     "Sequence._mapped / constructors are exercised, not modelled",
     "projection_denotes assumes the aligned row contains every residue of the feature (true for a row of the whole "
     "sequence); the own-row slice of alignment features is exercised against a column oracle",
-    "Sequence.add_feature on views is modelled (Model/FeatureAdd.lean, addfeature correspondence) and exercised (added stream); it is "
-    "not translated by c04_feature2lean",
-    "the contiguous form get_slice(allow_gaps=True) is modelled (getSliceContig) and tied by correspondence; its theorems are at index / "
-    "residue level and are not composed with featureOnView; get_slice(complete=True) is checked only for wholly retained features "
-    "(it raises by design otherwise); as_one_span / shadow / without_lost_spans are not exercised",
+    "Sequence.add_feature on views is modelled whole (Model/FeatureAdd.lean addFeature: db record + returned Feature), translated "
+    "(GenOld/GenNew.addFeature, gen_addFeature_old_eq / _new_eq) and tied by the addfeature / addfeature_full correspondences; the "
+    "db record is compared after the db's own normalisation (sorted(sorted(coords))); python's sorted() of 2-tuples is the prelude's "
+    "insertion sort sortRows (a total order: every correct sort gives the same list)",
+    "the contiguous form get_slice(allow_gaps=True) is modelled (getSliceContig), translated (gen_getSlice_contig_eq) and composed "
+    "with featureOnView for features with pairwise disjoint spans (contiguous_positions_on_view / contiguous_feature_on_view; spec "
+    "denoteContig validated against an independent oracle and against the residues really returned); get_slice(complete=True) on a "
+    "partly retained feature raises ValueError by design (gen_getSlice_complete_eq; checked as the form complete-partial); "
+    "as_one_span / shadow / without_lost_spans are not exercised",
+    "translator conventions (c04_slice2lean S1-S5): attribute assignments on the result (annotation_db = None) and name / info / moltype "
+    "/ check constructor arguments are not modelled, LostSpan.terminal reads false (only reachable with allow_gaps=True, which "
+    "_mapped never passes), str(self[a:b]) for an in-view span is str(self)[a:b] (C01 str_getitem)",
     "translator conventions (c04_feature2lean B1-B5): min/max of an empty array = 0, a missing strand reads as '+', numpy views are copied, "
     "Span's length >= 0 assertion and the `_annotation_db is None` guard of get_features are not modelled",
     "get_slice() of new-style Sequences differs from the model whenever the SeqView carries an offset "
@@ -319,7 +351,7 @@ def touch_class(case, state, feats):
 # --------------------------------------------------------------------------
 # every way of READING a feature that a query returned (not only the default get_slice())
 # --------------------------------------------------------------------------
-def feature_forms(view, f, want_spliced, want_contig, fully_retained, kind=None):
+def feature_forms(view, f, want_spliced, want_contig, fully_retained, kind=None, partly=False):
     """[(form, want, got)] for the other observation forms of one feature bound to `view`:
     `get_slice(allow_gaps=True)` -- the CONTIGUOUS segment from the first to the last retained position, read on the
     feature's strand like the spliced form; `view[feature]` -- the spliced form; `get_slice(complete=True)` -- the
@@ -329,6 +361,10 @@ def feature_forms(view, f, want_spliced, want_contig, fully_retained, kind=None)
     forms = [("allow_gaps", want_contig, lambda: f.get_slice(allow_gaps=True)), ("view[feature]", want_spliced, lambda: view[f])]
     if fully_retained:
         forms.append(("complete", want_spliced, lambda: f.get_slice(complete=True)))
+    elif partly and want_spliced:
+        # documented ("if feature not complete on parent, causes an exception to be raised") and proved on the translated
+        # code (gen_getSlice_complete_eq): a partly retained feature raises ValueError('gap(s) in map ...')
+        forms.append(("complete-partial", "raised ValueError: gap(s) in map", lambda: f.get_slice(complete=True)))
     for form, want, call in forms:
         try:
             got = call()
@@ -337,6 +373,8 @@ def feature_forms(view, f, want_spliced, want_contig, fully_retained, kind=None)
             got = f"raised {type(e).__name__}: {e}"
             if kind == "new" and "cannot set offset" in got:
                 continue
+            if form == "complete-partial" and got.startswith(want):
+                got = want
         out.append((form, want, got))
     return out
 
@@ -466,7 +504,7 @@ def run_case(case, rng=None, out=None, win_limit=12, wins=None):
                     ))
                     continue
                 # the other ways of reading the same feature
-                for form, want_f, got_f in feature_forms(seq, f, want, oracle_contig(case, spec, state), not partial_in, case["kind"]):
+                for form, want_f, got_f in feature_forms(seq, f, want, oracle_contig(case, spec, state), not partial_in, case["kind"], partly=partial_in):
                     if out is not None:
                         out["evaluations"] += 1
                         bump(out, "feature_form", form)
@@ -1409,6 +1447,16 @@ def correspondence(ctx):
                     # new-style `_mapped`: the model predicts exactly when the offset guard fires
                     reqs.append(("getslice_new", dict(view=vj, parent=_parent_text(seq), minus=f["strand"] == "-", spans=f["spans"])))
                     expect.append(("getslice_new", dict(case=case, feature=f), real, resid))
+                # (c') the spec of the contiguous form vs an independent oracle AND vs the residues get_slice(allow_gaps=True)
+                # really returned (unit-stride views; features whose spans are disjoint, as the theorem assumes)
+                sp_ = sorted(f["spans"])
+                if abs(vj["step"]) == 1 and "err" not in real and all(sp_[k][1] <= sp_[k + 1][0] for k in range(len(sp_) - 1)):
+                    ops_ = oracle_positions(dict(f, strand="+"), state)
+                    hull_ = list(range(ops_[0], ops_[-1] + 1)) if ops_ else []
+                    reqs.append(("denote_contig", dict(spans=sp_, minus=f["strand"] == "-", p0=p0, p1=p1)))
+                    expect.append(("denote_contig", dict(case=case, feature=f, p0=p0, p1=p1),
+                                   dict(pos=hull_[::-1] if f["strand"] == "-" else hull_, comp=f["strand"] == "-"),
+                                   (rc_, _parent_text(seq), vj["offset"])))
                 # (c) spec function vs oracle
                 reqs.append(("denote", dict(spans=sorted(f["spans"]), minus=f["strand"] == "-", p0=p0, p1=p1)))
                 expect.append(("denote", dict(feature=f, p0=p0, p1=p1), dict(pos=oracle_positions(f, state), comp=f["strand"] == "-"), None))
@@ -1636,6 +1684,11 @@ def correspondence(ctx):
                 out["nontrivial"].add(("addf", json.dumps(inp["added_case"]["ops"]), inp["added_case"]["text"], str(inp["spans"])))
         elif kind == "addfeature_full":
             bump(out, "addfeature_full", ("err:" + real["err"] if "err" in real else "ok") + ":" + inp["klass"])
+            if "db" in rep:
+                # the record is observed after the db's own normalisation (C17: sorted(sorted(coords) for coords in spans))
+                rep = dict(rep, db=sorted(sorted(x) for x in rep["db"]))
+            if "db" in real:
+                real = dict(real, db=sorted(sorted(x) for x in real["db"]))
             if rep != real:
                 add_failure(out, "corr", "addFeature model differs from Sequence.add_feature (db record / returned feature / exception class)", inp, rep, real, confirmed=False)
             elif "err" not in real and (any(x[0] == "lost" for x in real["spans"]) or inp["added_case"]["ops"]):
@@ -1691,6 +1744,18 @@ def correspondence(ctx):
                     add_failure(out, "corr", "get_slice raised where the getSlice model returns residues", inp, rep, extra, confirmed=False)
             elif rep != extra:
                 add_failure(out, "corr", "getSlice model differs from the residues get_slice returned", inp, rep, extra, confirmed=False)
+        elif kind == "denote_contig":
+            got_res, ptext, poff = extra
+            bump(out, "denote_contig", "empty" if not real["pos"] else "hull")
+            if rep != real:
+                add_failure(out, "corr", "Spec.denoteContig differs from the Python oracle", inp, rep, real, confirmed=False)
+            elif not (isinstance(got_res, str) and got_res.startswith("raised")):
+                comp_ = {"A": "T", "C": "G", "G": "C", "T": "A"}
+                want = "".join((comp_.get(ptext[q - poff], ptext[q - poff]) if rep["comp"] else ptext[q - poff]) for q in rep["pos"])
+                if want != got_res:
+                    add_failure(out, "corr", "Spec.denoteContig (contiguous_feature_on_view) does not spell the residues get_slice(allow_gaps=True) returned", inp, want, got_res, confirmed=False)
+                elif len(real["pos"]) > 1:
+                    out["nontrivial"].add(("dcontig", json.dumps(inp["case"]["ops"]), inp["case"]["text"], inp["feature"]["name"]))
         elif kind == "denote":
             if rep != real:
                 add_failure(out, "corr", "Spec.denote differs from the Python oracle", inp, rep, real, confirmed=False)
